@@ -323,6 +323,38 @@ theorem encryptSubject_eq (h : Hash) (A : Aead) (k n : Bytes) {e : Env} (hi : In
     simp only [encryptRefusal, Env.digest, newEncryptedUnwrap_encryptWithDigest A k n _ hv,
       beq_self_eq_true, if_true, encryptSubjectSpec, encSubj]
 
+/-- `encrypt_subject_opt` ends with `assert_eq!(result.digest(), original_digest)`: whatever
+it returns has the original digest, without any hypothesis -/
+theorem encryptSubject_digest_of_ok (h : Hash) (A : Aead) {k n : Bytes} {e r : Env}
+    (hr : encryptSubject h A k n e = .ok r) : r.digest = e.digest := by
+  unfold encryptSubject at hr
+  split at hr
+  · split at hr
+    · cases hr
+    · split at hr
+      · split at hr
+        · dsimp only at hr
+          split at hr
+          · rename_i hd
+            cases hr
+            simpa [Env.digest] using hd
+          · cases hr
+        · cases hr
+        · cases hr
+      · cases hr
+      · cases hr
+  · cases hr
+  · cases hr
+  · split at hr
+    · dsimp only at hr
+      split at hr
+      · rename_i hd
+        cases hr
+        simpa using hd
+      · cases hr
+    · cases hr
+    · cases hr
+
 theorem encryptRefusal_eq_none {e : Env} :
     encryptRefusal e = none ↔ e.subject.isEncrypted = false ∧ e.isElided = false := by
   cases e with
@@ -856,6 +888,58 @@ theorem compressSubjectSpec_inv {e : Env} (hi : Inv h e) (hv : e.subject.digest.
       by simp only [compressSubjectSpec, compSubj, Canon]; exact hv⟩
 
 end
+
+theorem envOfCbor_node (h : Hash) {x y : Cbor} {r : List Cbor} {s : Env} {as : List Env}
+    (hs : envOfCbor h x = .ok s) (ha : envOfCborList h (y :: r) = .ok as)
+    (hasc : AscDigests as) (hslot : as.all Env.slotOk = true) (hne : as ≠ [])
+    (hadj : ascAdj as = true) :
+    envOfCbor h (.array (x :: y :: r)) =
+      .ok (.node s as (h.ofDigests (s.digest :: as.map Env.digest))) := by
+  simp only [envOfCbor, hs, ha, hadj, if_true, newNode, hslot, newNodeUnchecked_ne h hne,
+    mkNode_asc h hasc]
+
+/-! ### concrete envelopes for the satisfiability examples in `Props/C08.lean`, `Props/C13.lean` -/
+
+namespace Ex
+open ToyDeps
+
+def lf : Env := newLeaf toyHash (.text [0x61])
+def kv : Env := newKnownValue toyHash 1
+def asr : Env := newAssertion toyHash kv lf
+/-- `"a" [ 1: "a" ]` -/
+def nd : Env := .node lf [asr] (toyHash.ofDigests [lf.digest, asr.digest])
+def asr2 : Env := newAssertion toyHash kv kv
+/-- a node whose subject is a node (possible after decoding) -/
+def nd2 : Env := .node nd [asr2] (toyHash.ofDigests [nd.digest, asr2.digest])
+
+theorem lf_inv : Inv toyHash lf := ⟨by simp only [lf, newLeaf, WF], by simp only [lf, newLeaf, Canon]⟩
+
+theorem nd_inv : Inv toyHash nd := by
+  refine ⟨?_, ?_⟩
+  · simp [nd, lf, kv, asr, newLeaf, newKnownValue, newAssertion, WF, WFList, Env.digest]
+  · simp [nd, lf, kv, asr, newLeaf, newKnownValue, newAssertion, Canon, CanonList, AscDigests,
+      Env.slotOk, Env.isSubjectAssertion]
+
+theorem nd2_inv : Inv toyHash nd2 := by
+  refine ⟨?_, ?_⟩
+  · simp [nd2, nd, lf, kv, asr, asr2, newLeaf, newKnownValue, newAssertion, WF, WFList, Env.digest]
+  · simp [nd2, nd, lf, kv, asr, asr2, newLeaf, newKnownValue, newAssertion, Canon, CanonList, AscDigests,
+      Env.slotOk, Env.isSubjectAssertion]
+
+theorem lf_rt : RoundTrips toyHash lf := by rfl
+theorem wrap_lf_rt : RoundTrips toyHash (wrap toyHash lf) := by rfl
+
+theorem nd_rt : RoundTrips toyHash nd := by
+  have h1 : Cbor.dec (encode nd) = .ok (taggedCborOf nd) := by rfl
+  unfold RoundTrips decode
+  rw [h1]
+  simp only [taggedCborOf, envOfTaggedCbor, beq_self_eq_true, if_true]
+  have h2 : envOfCbor toyHash (cborOf lf) = .ok lf := by rfl
+  have h3 : envOfCborList toyHash (cborOfList [asr]) = .ok [asr] := by rfl
+  have h4 : cborOf nd = .array (cborOf lf :: cborOfList [asr]) := by rfl
+  rw [h4]
+  exact envOfCbor_node toyHash h2 h3 (by simp [AscDigests]) (by rfl) (by simp) (by rfl)
+end Ex
 
 end Obs
 end EnvVerif
